@@ -103,11 +103,12 @@ def build(spec, seed=0):
                     maskers[g] = PITFrozenFeaturesMasker(nd['cout'])
                 else:   # a masker that is not trainable still masks the channels its alpha selects
                     maskers[g] = PITFeaturesMasker(nd['cout'], trainable=not nd.get('pit_untrainable', False))
+            thr = spec.get('pit_thr', 0.5)       # the user's binarization threshold for his hand-placed layers
             if k == 'conv1d':
-                return PITConv1d(m, maskers[g], PITTimestepMasker(nd['ks']), PITDilationMasker(nd['ks']))
+                return PITConv1d(m, maskers[g], PITTimestepMasker(nd['ks']), PITDilationMasker(nd['ks']), binarization_threshold=thr)
             if k == 'conv2d':
-                return PITConv2d(m, maskers[g])
-            return PITLinear(m, maskers[g])
+                return PITConv2d(m, maskers[g], binarization_threshold=thr)
+            return PITLinear(m, maskers[g], binarization_threshold=thr)
         return m
 
     class GNet(nn.Module):
@@ -230,6 +231,9 @@ def pit_kwargs(spec, nn):
         kw['exclude_types'] = tuple(getattr(pnn, t) if t.startswith('PIT') else getattr(nn, t) for t in spec['exclude_types'])
     if not spec.get('autoconvert', True):
         kw['autoconvert_layers'] = False
+    if spec.get('pit_thr', 0.5) != 0.5:
+        # mask values strictly between 0 and 1 are used: `.features` is the NUMBER of alive features only for the discretized cost
+        kw['discrete_cost'] = True
     return kw
 
 
@@ -660,6 +664,10 @@ def user_pit(spec, rng, auto=False):
                     spec['nodes'][i]['pit_untrainable'] = True
             if 'untrainable-placed-masker' not in spec.get('productions', []):
                 spec.setdefault('productions', []).append('untrainable-placed-masker')
+    # a non-default binarization threshold on the hand-placed layers (mask values between it and 0.5 are then used)
+    if placed and rng.random() < 0.5:
+        spec['pit_thr'] = rng.choice([0.3, 0.3, 0.7])
+        spec.setdefault('productions', []).append('placed-layers-threshold-%s' % spec['pit_thr'])
     r = rng.random()
     if placed and r < 0.55:
         spec['exclude_names'] = sorted(set(spec.get('exclude_names', []) + rng.sample(placed, min(len(placed), rng.randint(1, 2)))))
@@ -724,7 +732,13 @@ def gen_mps(rng):
         cur = g.add(k='relu', src=g.add(k='linear', src=cur, cin=f, cout=h, bias=True))
         f = h
     cur = g.add(k='linear', src=cur, cin=f, cout=rng.randint(2, 4), bias=True)
-    return {'dim': 2, 'nodes': g.nodes, 'out': [cur], 'productions': g.prod, 'method': 'mps'}
+    spec = {'dim': 2, 'nodes': g.nodes, 'out': [cur], 'productions': g.prod, 'method': 'mps'}
+    if rng.random() < 0.5:
+        # layer-specific qinfo entries (same content as the default) named after one or two conv / linear layers
+        layers = [i for i, nd in enumerate(g.nodes) if nd['k'] in ('conv2d', 'linear')]
+        spec['qinfo_layers'] = sorted(rng.sample(layers, min(len(layers), rng.randint(1, 2))))
+        g.prod.append('mps:layer-specific-qinfo')
+    return spec
 
 
 def describe(spec):
@@ -738,6 +752,10 @@ def describe(spec):
         s += ' autoconvert=off'
     if spec.get('rewrap'):
         s += ' rewrap(train_features=False)'
+    if spec.get('pit_thr', 0.5) != 0.5:
+        s += ' binarization_threshold=%s' % spec['pit_thr']
+    if spec.get('qinfo_layers'):
+        s += ' qinfo_entries=%s' % spec['qinfo_layers']
     if any(nd.get('pit_untrainable') for nd in spec['nodes']):
         s += ' untrainable-maskers=%s' % sorted(set(nd['pit'] for nd in spec['nodes'] if nd.get('pit_untrainable')))
     return s
